@@ -8,16 +8,31 @@ A logical statement is a dict:
 from . import catalogue as C
 
 
+# Spelling of the generated names (program units, constructs, derived types).  The style is a function of the unit headers of
+# the derivation, so every rendering of one derivation (layouts, include splits, the program minus some statements) uses the
+# same names: 0 short lower case, 1 capitalised with underscores, 2 long (below the 63 character limit), 3 beginning like a keyword.
+_STYLE = 0
+_NAMES = {
+    "u": ["u%d", "Unit_No_%d", "a_program_unit_with_a_rather_long_name_that_goes_on_%d", "program%d"],
+    "c": ["c%d", "Loop_Or_Block_%d", "a_construct_with_a_rather_long_name_that_goes_on_and_on_%d", "do%d"],
+    "t": ["ty%d", "Derived_Type_%d", "a_derived_type_with_a_rather_long_name_that_goes_on_%d", "real%d"],
+}
+
+
+def style_of(out):
+    return sum(r["v"] + r["n"] for r in out if r["k"] in C.UNIT) % 4
+
+
 def uname(n):
-    return "u%d" % n
+    return _NAMES["u"][_STYLE] % n
 
 
 def cname(n):
-    return "c%d" % n
+    return _NAMES["c"][_STYLE] % n
 
 
 def tname(n):
-    return "ty%d" % n
+    return _NAMES["t"][_STYLE] % n
 
 
 def stmt_of(rec, idx=0):
@@ -73,7 +88,12 @@ def stmt_of(rec, idx=0):
 
 
 def stmts_of(out):
-    return [stmt_of(r, i) for i, r in enumerate(out)]
+    global _STYLE
+    _STYLE = style_of(out)
+    try:
+        return [stmt_of(r, i) for i, r in enumerate(out)]
+    finally:
+        _STYLE = 0
 
 
 def stmt_line(s, indent=True):
